@@ -395,6 +395,22 @@ def lhs_cases(rng, tier):
     return out
 
 
+def memory_cases(cases, limit=None):
+    """the sub-cases that stress buffer sizing (identity points: 1-byte encodings; empty strings; thresholds and ring sizes;
+    every shape of the homomorphic verifiers): run once more with the AddressSanitizer build of the library"""
+    out = []
+    for ln in cases:
+        t = ln.split()
+        if "honest" not in t:
+            continue
+        k = t.index("honest")
+        head, muts = t[:k], t[k + 1:]
+        keep = [m for m in muts if ":inf" in m or m.startswith("thres:") or "ring:drop" in m or m.endswith("=.") or m.startswith("flen:")]
+        if keep or head[0] in ("mklhs", "cmlhs"):
+            out.append(" ".join(head + ["honest"] + keep))
+    return out if limit is None else out[:limit]
+
+
 def all_cases(rng, ids, tier):
     """ids: [(curve id, bits of the group order)] accepted by ep_param_set; quick uses the first and the last of them"""
     quick = tier == "quick"
